@@ -101,6 +101,56 @@ def fault_case(draw, spec, cp):
     return ops
 
 
+@st.composite
+def copy_case(draw, spec, cp):
+    """history on object 0, then copies / assignments / moves at arbitrary quiescent points with different continuations
+    for original and copy (interleaved through switch operations)"""
+    nev = len([e for e in spec['events'] if not e.get('kleene')])
+    ops = [dict(op='S', val=draw(valuation()), scripts={})]
+    live = [0]            # objects that may be driven
+    nobj = 1
+    cur = 0
+    moves = cp.get('moves', False)
+    def drive():
+        k = draw(st.sampled_from(['P', 'P', 'P', 'Q', 'X', 'N']))
+        if k == 'P':
+            return dict(op='P', pick=draw(pick()), val=draw(valuation()), scripts=draw(scripts(nev, cp.get('scripts'))))
+        if k == 'Q':
+            return dict(op='Q', pick=draw(pick()))
+        if k == 'X':
+            return dict(op='X', mode=draw(st.sampled_from(['a', 's'])), val=draw(valuation()), scripts={})
+        return dict(op='N')
+    for _ in range(draw(st.integers(1, cp.get('max_ops', 20)))):
+        kind = draw(st.sampled_from(['d', 'd', 'd', 'd', 'c', 'w', 'a', 'm', 'x']))
+        if kind == 'd':
+            ops.append(drive())
+        elif kind == 'c' and nobj < 4:
+            ops.append(dict(op='C'))
+            live.append(nobj)
+            nobj += 1
+        elif kind == 'w' and len(live) > 1:
+            cur = draw(st.sampled_from(live))
+            ops.append(dict(op='W', obj=cur))
+        elif kind == 'a' and len(live) > 1:
+            dst = draw(st.sampled_from(live))
+            src = draw(st.sampled_from(live))
+            if dst != src:
+                ops.append(dict(op='A', dst=dst, src=src))
+        elif kind == 'm' and moves and nobj < 4:
+            ops.append(dict(op='M'))
+            live = [x for x in live if x != cur]
+            live.append(nobj)
+            cur = nobj
+            ops.append(dict(op='W', obj=cur))
+            nobj += 1
+        elif kind == 'x' and len(live) > 1:
+            victim = draw(st.sampled_from([x for x in live if x != cur] or [cur]))
+            if victim != cur:
+                ops.append(dict(op='D', obj=victim))
+                live = [x for x in live if x != victim]
+    return ops
+
+
 class Exec:
     """lock-step execution of an abstract case: resolves picks against the SUT's observed configuration."""
 
@@ -182,11 +232,55 @@ def crash_sig(e, concrete=None):
         return 'hang'
     err = getattr(e, 'err', '') or ''
     has_throw = any(sc and sc[0] == 't' for c in (concrete or []) for lst in (c.get('scripts') or {}).values() for sc in lst)
+    ops = [c['op'] for c in (concrete or [])]
+    cfg = getattr(e, 'cfg', None)
+    if cfg is not None and (cfg % 10) <= 4 and 'D' in ops and ('C' in ops or 'A' in ops) and ('Q' in ops or any(c.get('scripts') for c in (concrete or []))):
+        # back/back11: pending functors of a copy are bound to the original; once the original is destroyed they dangle
+        return 'back_pending_events_of_a_copy_run_on_the_original'
     if "state_id == current_state_id" in err and 'front::none' in err and has_throw:
         # backmp11: a completion occurrence pushed while a submachine was being entered survives an exception that aborts
         # the entry; it is executed later against a state that is not active (assertion in transition::execute)
         return 'mp11_stale_completion_occurrence_after_throw_in_entry'
     return 'crash'
+
+
+def copy_refs(ex, concrete, per_op):
+    """per-object histories of a copy case; every derived object is re-created on a fresh machine by replaying its history"""
+    hist = {0: []}
+    cur = 0
+    for idx, c in enumerate(concrete):
+        if idx >= len(per_op):
+            break
+        k = c['op']
+        if k == 'C' or k == 'M':
+            tag = [t for t in per_op[idx] if t.startswith('[%s->' % k)]
+            if tag:
+                hist[int(tag[0][4:-1])] = list(hist.get(cur, []))
+        elif k == 'A':
+            if any(t.startswith('[A') and 'skip' not in t for t in per_op[idx]):
+                hist[c['dst']] = list(hist.get(c['src'], []))
+        elif k == 'W':
+            if not any('skip' in t for t in per_op[idx]):
+                cur = c['obj']
+        elif k in ('S', 'T', 'P', 'Q', 'X', 'N'):
+            hist.setdefault(cur, []).append(idx)
+    refs = {}
+    for obj, idxs in hist.items():
+        if obj == 0:
+            continue
+        refs[obj] = (idxs, ex.replay([concrete[i] for i in idxs]))
+    return dict(refs=refs, hist=hist)
+
+
+def fault_baseline(ex, concrete, fi, k):
+    base = [dict(c) for c in concrete]
+    sc = {int(a): list(b) for a, b in (base[fi].get('scripts') or {}).items()}
+    if k in sc:
+        sc[k] = [x for x in sc[k] if x[0] != 't'] if sc[k].count(['t']) <= 1 else sc[k][:-1]
+        if not sc[k]:
+            del sc[k]
+    base[fi]['scripts'] = sc
+    return ex.replay(base)
 
 
 class Violation(Exception):
@@ -234,6 +328,7 @@ def run_job(job):
         try:
             concrete, per_op = ex.run(acase)
         except (SUT.SutCrash, SUT.SutHang) as e:
+            e.cfg = job['cfg']
             v = Violation('SUT crashed: rc=%s %s' % (e.rc, e.err[-600:]), sig=crash_sig(e, getattr(e, 'concrete', None)))
             if v.sig in known:
                 res['classes']['excluded_known:' + v.sig] = res['classes'].get('excluded_known:' + v.sig, 0) + 1
@@ -275,6 +370,12 @@ def run_job(job):
                     variants.append((ck, pk, dict(fault_index=fi, k=k, baseline=per_op)))
                 if not variants:
                     res['classes']['fault_op_without_callbacks'] = res['classes'].get('fault_op_without_callbacks', 0) + 1
+        if job.get('mode') == 'copy':
+            try:
+                variants = [(concrete, per_op, copy_refs(ex, concrete, per_op))]
+            except (SUT.SutCrash, SUT.SutHang) as e:
+                state['sut'] = SUT.Sut(job['bin'], env=job.get('env'))
+                variants = [(concrete, per_op, dict(refs={}, hist={}))]
         for (cc, pp, extra) in variants:
             res['evaluations'] += 1
             ctx = oracles.Ctx(spec, static, job['cfg'], cc, pp, job)
@@ -285,7 +386,8 @@ def run_job(job):
                 if v.sig is not None and v.sig in known:
                     res['classes']['excluded_known:' + v.sig] = res['classes'].get('excluded_known:' + v.sig, 0) + 1
                     continue
-                state['last_fail'] = dict(case=cc, msg=v.msg, sig=v.sig, detail=v.detail)
+                state['last_fail'] = dict(case=cc, msg=v.msg, sig=v.sig, detail=v.detail,
+                                          mode=job.get('mode'), fault=(dict(fault_index=extra['fault_index'], k=extra['k']) if extra and 'k' in extra else None))
                 raise
             for k in out.get('nontrivial', ()):
                 res['nontrivial'].add(hash_key(k))
@@ -302,7 +404,7 @@ def run_job(job):
                     kept.append((False, cc))
 
     sd = int(hashlib.sha256(('%s/%s/%s/%s' % (job['seed'], spec['id'], job['cfg'], job['prop'])).encode()).hexdigest()[:8], 16)
-    strat = fault_case(spec, job['cp']) if job.get('mode') == 'fault_enum' else abstract_case(spec, job['cp'])
+    strat = fault_case(spec, job['cp']) if job.get('mode') == 'fault_enum' else (copy_case(spec, job['cp']) if job.get('mode') == 'copy' else abstract_case(spec, job['cp']))
     test = given(strat)(body)
     test = seed(sd)(test)
     test = settings(max_examples=job['max_examples'], database=None, deadline=None, derandomize=False,
